@@ -56,6 +56,23 @@ KeygroupView(kg) ==
    ints |-> kg.ints,                                   \* the plain integer fields, name -> value, printed as stored
    velocity_zone_crossfade |-> Bool(kg.velocity_zone_crossfade), hold_attack_until_loop |-> Bool(kg.hold_attack_until_loop),
    zones |-> LET nz == SelectSeq(kg.zones, LAMBDA z : z.sample_name # "") IN [k \in 1..Len(nz) |-> ZoneView(nz[k])]]
+\* The keygroup chain (akai/program.py KeygroupLinkConstruct): the program file holds 150-byte keygroup blocks at
+\* arbitrary addresses (st.blocks: sequence of [addr, kg], possibly including stale blocks that are not linked).
+\* Parsing starts at first_keygroup_address (if it and the count are positive, else right behind the 72-byte header),
+\* reads number_of_keygroups blocks, and after block i seeks to its next-keygroup address iff that address is
+\* positive and i is not the last index; otherwise it continues directly behind the block just read.
+BlockAt(st, a) == LET hits == {k \in 1..Len(st.blocks) : st.blocks[k].addr = a} IN
+                  IF hits = {} THEN 0 ELSE CHOOSE k \in hits : TRUE
+RECURSIVE ChainWalk(_, _, _, _)
+ChainWalk(st, pos, i, acc) ==
+  IF i >= st.number_of_keygroups THEN acc
+  ELSE LET b == BlockAt(st, pos) IN
+       IF b = 0 THEN acc                                   \* nothing stored there: the generator never produces this
+       ELSE LET kg == st.blocks[b].kg
+                nxt == IF kg.next > 0 /\ i < st.number_of_keygroups - 1 THEN kg.next ELSE pos + 150
+            IN ChainWalk(st, nxt, i + 1, Append(acc, kg))
+Keygroups(st) == ChainWalk(st, IF st.first_keygroup_address > 0 /\ st.number_of_keygroups > 0 THEN st.first_keygroup_address ELSE 72, 0, <<>>)
+
 AkaiProgramView(st) ==
   [ints |-> st.ints,
    midi_channel |-> OrWord(st.midi_channel, "Omni"), aux_output_select |-> OrWord(st.aux_output_select, "Off"),
@@ -65,8 +82,8 @@ AkaiProgramView(st) ==
    stereo_coherence |-> Bool(st.stereo_coherence), lfo_desync |-> Bool(st.lfo_desync),
    tune_cents_x255 |-> Cents255(st.tune_cents),
    voice_output_scale_db |-> VoiceScale(st.voice_output_scale_db), stereo_output_scale_db |-> StereoScale(st.stereo_output_scale_db),
-   key_temperaments |-> st.key_temperaments, number_of_keygroups |-> Str(Len(st.keygroups)),
-   keygroups |-> [k \in 1..Len(st.keygroups) |-> KeygroupView(st.keygroups[k])]]
+   key_temperaments |-> st.key_temperaments, number_of_keygroups |-> Str(st.number_of_keygroups),
+   keygroups |-> LET ks == Keygroups(st) IN [k \in 1..Len(ks) |-> KeygroupView(ks[k])]]
 
 \* ---- Roland sample ----------------------------------------------------------------------------
 FreqOf(code) == <<48000, 44100, 24000, 22050, 30000, 15000>>[code + 1]
